@@ -322,6 +322,8 @@ pub enum Step {
     /// change the I/O policy / add faults on the live connection
     Io { policy: Option<IoPolicy>, faults: Vec<FaultPlan> },
     SetNextPid(u16),
+    /// consume `n` packet identifiers through refused QoS 1 publishes (payload closure fails)
+    BurnIds(usize),
     /// poll until a message arrives (bounded), then answer it through the reply helpers
     PollReply { mode: ReplyMode, payload: Vec<u8>, user_props: Option<Vec<Prop>>, qos: u8 },
 }
@@ -348,6 +350,7 @@ impl Step {
             Step::Advance(_) => "advance",
             Step::Io { .. } => "io",
             Step::SetNextPid(_) => "setpid",
+            Step::BurnIds(_) => "burn",
             Step::PollReply { .. } => "pollreply",
         }
     }
